@@ -6,7 +6,11 @@
 (* Texts are interned to integers by the harness (0 = no value).           *)
 (*                                                                         *)
 (* One line per run: [keys |-> N, over |-> <<[k, js]...>>, raw |-> <<[k, js]...>>, ev |-> <<...>>] *)
-(*  init  [op, cfg]                 the texts printed for every key        *)
+(*  init  [op, cfg, dflt]           the texts printed for every key, and    *)
+(*                                  those of a fresh default configuration  *)
+(*  reset [op, k, ok, ch]           RESET k and the keys that changed       *)
+(*  rebuild [op, via, ok, diff]     the configuration rebuilt from its own  *)
+(*        listing; diff = keys whose text differs in the rebuilt one       *)
 (*  show  [op, k, t]                a front end printed t for key k        *)
 (*  set   [op, k, t, ok, ch, plain, inval]   Set(k, t) returned ok / error;*)
 (*        ch = <<<<j, tj>>...>> every key whose printed text differs after  *)
@@ -64,6 +68,18 @@ AcceptSet(e) ==
          /\ <<e.k, e.t>> \in seen => c = e.t           \* a printed text is a fixpoint
          /\ (e.t = cfg[e.k] /\ Over(e.k) = {}) => e.ch = <<>>   \* Set(k, Show(k)) = identity
 
+\* RESET k: the option shows its default again (the text of the init event); a refused RESET changes nothing
+Dflt(k) == Runs[run].ev[1].dflt[k]        \* the listing of a fresh default configuration
+AcceptReset(e) ==
+    IF ~e.ok THEN e.ch = <<>>
+    ELSE /\ Changed(e) \subseteq ({e.k} \cup Over(e.k) \cup Raw(e.k))
+         /\ After(cfg, e)[e.k] = Dflt(e.k)
+
+\* the whole configuration rebuilt from its own listing (from_string_hash_map / from_env / alter_with_string_hash_map):
+\* every option is Set from the text it shows, so the rebuilt listing is the same (Config!RoundTrip for all keys at once);
+\* the recorder reports the keys that differ
+AcceptRebuild(e) == e.ok /\ e.diff = <<>>
+
 Step ==
     /\ l <= Len(Evs)
     /\ LET e == Ev IN
@@ -75,6 +91,13 @@ Step ==
               /\ rej' = IF AcceptSet(e) THEN rej ELSE Append(rej, l)
               /\ cfg' = After(cfg, e)
               /\ seen' = seen \cup {<<e.ch[i][1], e.ch[i][2]>> : i \in {j \in 1..Len(e.ch) : e.ch[j][2] # 0}}
+         [] e.op = "reset" ->
+              /\ rej' = IF AcceptReset(e) THEN rej ELSE Append(rej, l)
+              /\ cfg' = After(cfg, e)
+              /\ seen' = seen \cup {<<e.ch[i][1], e.ch[i][2]>> : i \in {j \in 1..Len(e.ch) : e.ch[j][2] # 0}}
+         [] e.op = "rebuild" ->
+              /\ rej' = IF AcceptRebuild(e) THEN rej ELSE Append(rej, l)
+              /\ UNCHANGED <<cfg, seen>>
          [] OTHER -> UNCHANGED <<rej, cfg, seen>>
     /\ l' = l + 1 /\ UNCHANGED run
 
